@@ -31,12 +31,12 @@ def paramOf (P : Params) (name : String) : Option Nat :=
   | "opStaticCall" => some P.opStaticCall
   | _ => none
 
-def callee? (s : String) (preq : Nat) (pok : Bool) (pw : Nat) : Option Callee :=
+def callee? (s : String) (paddr preq : Nat) (pok : Bool) (pw : Nat) : Option Callee :=
   match s with
   | "none" => some .none
   | "empty" => some .empty
   | "code" => some .code
-  | "pre" => some (.pre preq pok pw)
+  | "pre" => some (.pre paddr preq pok pw)
   | "loadfail" => some .loadFail
   | "collision" => some .collision
   | _ => none
@@ -74,19 +74,26 @@ def step (s : St) (w : List String) : St × String :=
       let live : OpInfo := if valid then ⟨true, mn.toNat, mx.toNat, wr, ha, re, ju, rt, hm, mg⟩ else OpInfo.invalid
       (s, if op < 256 ∧ T.rows.length = 256 ∧ T.info op = live ∧ (valid = false ∨ (0 ≤ mn ∧ 0 ≤ mx)) then "ok" else "table-mismatch")
     | _, _, _, _, _, _, _, _, _, _, _ => (s, "bad-op")
-  | ["begin", entry, gas, value, canT, callee, preq, pok, pw] =>
-    match kind? entry, gas.toNat?, b? value, b? canT, preq.toNat?, b? pok, pw.toNat? with
-    | some k, some gas, some value, some canT, some preq, some pok, some pw =>
-      match callee? callee preq pok pw with
+  | ["pre", addr, wr] =>
+    match addr.toNat?, b? wr with
+    | some a, some wr =>
+      (s, if a ∈ EvmTable.precompiles ∧ (wr = decide (a ∈ T.params.writingPre)) then "ok" else "table-mismatch")
+    | _, _ => (s, "bad-op")
+  | ["precount", n] =>
+    (s, if n.toNat? = some EvmTable.precompiles.length ∧ T.params.guardPre = true then "ok" else "table-mismatch")
+  | ["begin", entry, gas, value, canT, callee, paddr, preq, pok, pw] =>
+    match kind? entry, gas.toNat?, b? value, b? canT, paddr.toNat?, preq.toNat?, b? pok, pw.toNat? with
+    | some k, some gas, some value, some canT, some paddr, some preq, some pok, some pw =>
+      match callee? callee paddr preq pok pw with
       | some cal => ({ m := begin T k gas value canT cal }, "ok")
       | none => (s, "bad-op")
-    | _, _, _, _, _, _, _ => (s, "bad-op")
-  | ["s", op, sl, cost, memOv, gasErr, execErr, wr, retLen, value, req, canT, callee, preq, pok, pw] =>
+    | _, _, _, _, _, _, _, _ => (s, "bad-op")
+  | ["s", op, sl, cost, memOv, gasErr, execErr, wr, retLen, value, req, canT, callee, paddr, preq, pok, pw] =>
     match op.toNat?, sl.toNat?, cost.toNat?, b? memOv, b? gasErr, b? execErr, wr.toNat?, retLen.toNat? with
     | some op, some sl, some cost, some memOv, some gasErr, some execErr, some wr, some retLen =>
-      match b? value, req.toNat?, b? canT, preq.toNat?, b? pok, pw.toNat? with
-      | some value, some req, some canT, some preq, some pok, some pw =>
-        match callee? callee preq pok pw, s.m.frames with
+      match b? value, req.toNat?, b? canT, paddr.toNat?, preq.toNat?, b? pok, pw.toNat? with
+      | some value, some req, some canT, some paddr, some preq, some pok, some pw =>
+        match callee? callee paddr preq pok pw, s.m.frames with
         | some cal, f :: _ =>
           let info := T.info op
           let c0 : Choice := { op := op, stackLen := sl, memOverflow := memOv, gasErr := gasErr, execErr := execErr,
@@ -112,7 +119,7 @@ def step (s : St) (w : List String) : St × String :=
             ({ m := Evm.step T s.m c }, head ++ v)
         | some _, [] => (s, "no-frame")
         | none, _ => (s, "bad-op")
-      | _, _, _, _, _, _ => (s, "bad-op")
+      | _, _, _, _, _, _, _ => (s, "bad-op")
     | _, _, _, _, _, _, _, _ => (s, "bad-op")
   | ["end"] =>
     match s.m.result, s.m.frames with
